@@ -288,6 +288,7 @@ def run(res: Results, idx: Index, tier: str) -> None:
     run_irfft_length_conservation(res, idx)
     run_priority_cascades(res, idx)
     run_structured_param_fields(res, idx)
+    run_static_start_clamp(res, idx)
     _rule_i(res, idx, tier)
 
 
@@ -537,3 +538,33 @@ def run_structured_param_fields(res: Results, idx: Index) -> None:
                 res.violation("R-C01m", f"{LAX}{mods[0]}:1", key, f"no module that lowers the primitives carrying {sname} ({', '.join(mods)}) ever reads its field `{f_}`: an equation whose {f_} is "
                               "non-trivial (JAX's own batching rules produce them under vmap) is lowered as if the field were empty — a valid model that computes something else", "")
     res.analysed["structured_param_fields"] = n
+
+
+# ---------------------------------------------------------------------------------------------- R-C01n
+def run_static_start_clamp(res: Results, idx: Index) -> None:
+    """XLA clamps the start of a gathered / sliced window so that the window fits the operand (clip and promise_in_bounds
+    modes); the dynamic lowering does the same with Max / Min nodes.  The constant-start fast path of `lax.gather` turns the
+    start into a plain ONNX Slice, which TRUNCATES an out-of-range window instead: the write of the static start has to be
+    bounded by the operand extent minus the slice size (a min / max or clip over both) before it is stored."""
+    res.rule("R-C01n", "the constant start of a gather window is clamped with operand extent - slice size before it becomes a Slice", floor=1)
+    rel = "jax2onnx/plugins/jax/lax/gather_compile.py"
+    f = idx.find_func(rel, "lax_gather_to_gir")
+    if f is None:
+        raise AnalysisError("gather_compile.lax_gather_to_gir not found")
+    du = defuse(f.node)
+    writes = [st for st in walk_no_nested(f.node) if isinstance(st, ast.Assign) and isinstance(st.targets[0], ast.Subscript) and isinstance(st.targets[0].slice, ast.Constant)
+              and st.targets[0].slice.value == "start_offset_value"]
+    if not writes:
+        res.unresolved("R-C01n", f.site, f"{rel}::lax_gather_to_gir::static-start", "no write of entry['start_offset_value'] found (fast path restructured)", f.qualname)
+        return
+    for i, st in enumerate(writes):
+        key = f"{rel}::lax_gather_to_gir::static-start#{i}"
+        clo = du.closure(names_in(st.value)) | names_in(st.value)
+        exprs = [st.value] + [d.value for nm in clo for d in du.defs.get(nm, []) if d.value is not None]
+        calls = {(call_name(c) or "").split(".")[-1] for e in exprs for c in ast.walk(e) if isinstance(c, ast.Call)}
+        bounded = ({"min", "max"} <= calls or "clip" in calls or {"minimum", "maximum"} <= calls) and "operand_shape" in clo and "slice_sizes" in clo
+        if bounded:
+            res.ok("R-C01n", f"{rel}:{st.lineno}", key, "the stored start derives from min/max over operand_shape and slice_sizes", f.qualname)
+        else:
+            res.violation("R-C01n", f"{rel}:{st.lineno}", key, f"`{src(st, 70)}` stores the constant start index as it is: for a start beyond operand extent - slice size (mode clip) JAX clamps the window, "
+                          "the emitted Slice truncates it — fewer rows than declared and other values", f.qualname)
